@@ -57,6 +57,22 @@ def run_cli_history(spec, tier, seed):
                 cand = [q for q in sorted(full) if sum(1 for q2 in full if q2.split('.')[0] == q.split('.')[0]) > 2]
                 drop = set(rng_.sample(cand, min(len(cand), rng_.randint(1, 4))))
                 c20.write_ini(path, {q: v for q, v in full.items() if q not in drop})
+                # option names are case-insensitive in the input file: a user may well write Filing_Status or BOX_1
+                kept = [q for q in sorted(full) if q not in drop]
+                recase = set(rng_.sample(kept, min(len(kept), 6)))
+                lines_ = []
+                sec_ = None
+                for line in open(path).read().splitlines():
+                    if line.startswith('['):
+                        sec_ = line[1:-1]
+                    elif ' = ' in line or line.endswith(' ='):
+                        opt = line.split(' =', 1)[0]
+                        if f'{sec_}.{opt}' in recase:
+                            line = (opt.upper() if len(lines_) % 2 else opt.capitalize()) + line[len(opt):]
+                    lines_.append(line)
+                with open(path, 'w') as fh:
+                    fh.write('\n'.join(lines_) + '\n')
+                supplied_lower = {q.lower() for q in kept}
                 p = scen.Persona(year, fam, f'c13cli:{seed}:{k}', overrides=full)
                 res.count('cli_histories_from_nearly_complete_file')
             current = {}
@@ -92,6 +108,18 @@ def run_cli_history(spec, tier, seed):
                 hx.habutax.prompt_input = orig_prompt
             res.evaluations += 1
             res.count('cli_histories')
+            if k % 2 == 1:
+                again = [nm for nm, t in given if nm and nm.lower() in supplied_lower]
+                if again:
+                    res.violation('C13|cli|asked-for-supplied-input', f'{year} {fam}: run 1 asked for {again[:3]} although the input file supplies them (option names written in another case)',
+                                  {'engine': 'cli-history', 'persona': p.describe(), 'shard': spec})
+            if r1.exc is None:
+                try:
+                    c20.parse(path)
+                except Exception as e:  # noqa
+                    res.violation('C13|cli|written-back-file-unreadable', f'{year} {fam}: the input file written back by run 1 cannot be read as an input file again: {type(e).__name__}: {str(e)[:120]}',
+                                  {'engine': 'cli-history', 'persona': p.describe(), 'shard': spec})
+                    continue
             if r1.exc is None and given:
                 written = c20.parse(path)
                 notw = [(nm, t) for nm, t in given if written.get(c20._lk(nm)) != t.strip()]
